@@ -92,7 +92,10 @@ def reconstructOK (q : Nat) (cm : List Nat) (c : Container) (r : Nat) : Bool :=
 
 /-- `FallBackAndVerifyEachSignature`: remove every share of the root that does not verify -/
 def fallback (c : Container) (r : Nat) : Container :=
-  fun r' s' => if r' = r ∧ c r s' = some false then none else c r' s'
+  fun r' s' =>
+    match c r' s' with
+    | some false => if r' = r then none else some false
+    | v => v
 
 /-! ### runner -/
 
